@@ -15,7 +15,8 @@ def get_css_files(path):
             yield path
     elif path.is_dir():
         for p in path.rglob("*.css"):
-            if not p.name.endswith("_cm.css"):
+            # like the single-file case: a file whose whole name is ".css" has no ".css" suffix
+            if p.suffix == ".css" and not p.name.endswith("_cm.css"):
                 yield p
 
 
